@@ -492,6 +492,20 @@ def gen_cont(rng, world, opname, length):
     return cont
 
 
+def sparsify(rng, world):
+    """A sparsely populated column: a comparison other than the first whose column is NULL on every labelled record (30 % of the worlds) or
+    on every record (10 %), so that training from labels / sampling / EM observes no level of that comparison while the earlier ones are
+    observed (the calls succeed with 'level not observed' on the unchanged tree)."""
+    x = rng.random()
+    if x < 0.4 and len(world["comparisons"]) >= 2:
+        col = rng.choice(world["comparisons"][1:])["col"]
+        for r in world["rows"]:
+            if x < 0.1 or r["lab"] is not None:
+                r[col] = None
+        world["sparse_column"] = col + (" (all records)" if x < 0.1 else " (labelled records)")
+    return world
+
+
 def run(ctx: core.Ctx):
     ctx.rule = (
         "cases = for sampled (dataset+model, 0-2 operation prefix, operation) triples: EVERY backend-statement index of the operation as the injected failure point (exhaustive per "
@@ -510,11 +524,12 @@ def run(ctx: core.Ctx):
     ctx.lean = core.lean_check(PROP, ctx.thorough)
     rng = ctx.rng
     triples = []
+    rng_sparse = random.Random(ctx.seed * 11 + 5)  # its own stream: the base family stays what it was for a given seed
     n_triples = ctx.budget(34, 600)
     ops_cycle = list(FAULTABLE)
     rng.shuffle(ops_cycle)
     for i in range(n_triples):
-        world = H.gen_world(rng)
+        world = sparsify(rng_sparse, H.gen_world(rng))
         opname = ops_cycle[i % len(ops_cycle)]
         if opname in ("acc_label_col", "pred_err_label_col") and rng.random() < 0.85:
             # the label-column evaluations need >= 1 rule of the model to succeed (their own rule comes on top): mostly 1-3 rules,
@@ -532,6 +547,21 @@ def run(ctx: core.Ctx):
             prefix = prefix + [{"op": "predict", "p": {}}, {"op": "cluster", "p": {"t": 0.1}}]
         cont = gen_cont(rng, world, opname, rng.randint(1, 3))
         triples.append((world, prefix, step[0], cont))
+    # directed: every training call on a world with a sparsely populated later column (a comparison none of whose levels is observed
+    # in the training pairs while the earlier comparisons are)
+    for opname in ["estimate_m_label", "estimate_u", "em", "estimate_m_labels_table"] * ctx.budget(1, 6):
+        world = H.gen_world(rng_sparse)
+        if len(world["comparisons"]) < 2:
+            continue
+        col = rng_sparse.choice(world["comparisons"][1:])["col"]
+        everywhere = rng_sparse.random() < 0.3
+        for r in world["rows"]:
+            if everywhere or r["lab"] is not None:
+                r[col] = None
+        world["sparse_column"] = col + (" (all records)" if everywhere else " (labelled records)")
+        step = gen_hist(rng_sparse, world, 1, [opname])
+        if step:
+            triples.append((world, [], step[0], gen_cont(rng_sparse, world, opname, 2)))
     if ctx.replay:
         cases = [json.loads(open(ctx.replay).read())["replay"]["case"]]
     else:
@@ -578,7 +608,7 @@ def run(ctx: core.Ctx):
         ctx.case({"world": c["world"], "prefix": c["prefix"], "step": c["step"], "k": c["k"]}, r["raised"] is not None,
                  sample={"op": c["step"]["op"], "fault_at_statement": c["k"], "of": c.get("n_statements"), "prefix": [s["op"] for s in c["prefix"]], "continuation": [s["op"] for s in c["cont"]],
                          "raised": r["raised"], "state_diff": r["state_diff"], "later_diff": r.get("later_diff")} if len(ctx.samples) < 6 else None)
-        ctx.count("op", c["step"]["op"]); ctx.count("engine", c["world"]["engine"]); ctx.count("kind", c["tag"])
+        ctx.count("op", c["step"]["op"]); ctx.count("engine", c["world"]["engine"]); ctx.count("kind", c["tag"]); ctx.count("sparse_column", c["world"].get("sparse_column", "none").split(" ", 1)[-1] if c["world"].get("sparse_column") else "none")
         ctx.count("raised", r["raised"] is not None)
         sp = c["step"]["p"]
         if c["step"]["op"] in EVAL_OPS:
